@@ -776,7 +776,19 @@ def gen_longlived(seed):
         names.append(name)
         meta.append({"path": name, "from": label, "size": len(data), "digest": wire.digest(data), "tags": []})
     head, _ = split_argv(d)
-    head = [a for i, a in enumerate(head) if a != "-c" and (i == 0 or head[i - 1] != "-c")]
+    cfg = config_of(d)
+    keep_cfg = False
+    if cfg is not None and rng.random() < 0.6:
+        # keep the configuration (rule options, groups, indent map, severities) without its per-file
+        # sections, which name files of the short batch: state that only leaks under some option
+        cfg.pop("file_rules", None)
+        cfg.pop("file_list", None)
+        if cfg:
+            sandbox = [f for f in sandbox if f["path"] != "cfg.json"] + [workload.sb_entry("cfg.json", common.json_bytes(cfg))]
+            keep_cfg = True
+    if not keep_cfg:
+        sandbox = [f for f in sandbox if f["path"] != "cfg.json"]
+        head = [a for i, a in enumerate(head) if a != "-c" and (i == 0 or head[i - 1] != "-c")]
     if "-p" in head:
         i = head.index("-p")
         head[i + 1] = rng.choice(["1", "1", "2"])
@@ -787,7 +799,7 @@ def gen_longlived(seed):
     d["meta"]["files"] = meta
     d["meta"]["stop"] = None
     d["meta"]["dup"] = None
-    d["meta"]["config"] = False
+    d["meta"]["config"] = keep_cfg
     d["meta"]["longlived"] = True
     d["policy"] = "starve"
     return d
